@@ -14,7 +14,7 @@ type death struct {
 }
 
 func isDeathSig(sig string) bool {
-	return strings.HasSuffix(sig, "/hang") || strings.Contains(sig, "/crash:")
+	return strings.HasSuffix(sig, "/hang") || strings.HasSuffix(sig, "/deadlock") || strings.Contains(sig, "/crash:")
 }
 
 // execOutcome executes a script file in a child process (`tabsim exec-one`)
@@ -28,6 +28,9 @@ func execOutcome(exe, path string, timeout time.Duration) string {
 	}
 	if err == nil {
 		return "ok"
+	}
+	if ee, ok := err.(*exec.ExitError); ok && ee.ExitCode() == ExitDeadlock {
+		return "deadlock"
 	}
 	if i := strings.Index(string(out), "fatal error: "); i >= 0 {
 		line := string(out)[i+len("fatal error: "):]
